@@ -824,6 +824,22 @@ def engine_answer(sql):
     return "rows x 0"
 
 
+def engine_answers(sql):
+    """the sequence of answers to successive requests with this text (the last one repeats)"""
+    core = sql.split(" -- F")[0]
+    if core.startswith("flaky "):
+        t = core.split()
+        k = int(t[1])
+        text = "Connection refused" if t[2] == "refuse" else "boom"
+        return ["error " + hx("sql failed " + text)] * k + ["rows x 0"]
+    return [engine_answer(sql)]
+
+
+def enc_answers(q):
+    a = engine_answers(q)
+    return f"{hx(q)} {len(a)} " + " ".join(a)
+
+
 UPD_RECORDS = [
     ("statement ok", "ins {n}", ""),
     ("statement ok", "fail {n}", ""),
@@ -844,6 +860,12 @@ UPD_RECORDS = [
     ("query T", "desc 3 {n}", "----\nr2\nr1\nr0\n"),
     ("query T", "desc 3 {n}", "----\nr0\nr1\nr2\n"),
     ("query T nosort", "desc 4 {n}", "----\nr3\nr2\nr1\nr0\n"),
+    # answers that change from one attempt to the next: the first k requests with this text fail (the
+    # engine counts per text), so the number of attempts and the final verdict depend on the retry loop
+    ("statement ok retry 3 backoff 0s", "flaky 1 refuse {n}", ""),
+    ("statement ok retry 3 backoff 1ms", "flaky 2 boom {n}", ""),
+    ("statement ok retry 2 backoff 0s", "flaky 2 boom {n}", ""),
+    ("statement ok", "flaky 1 boom {n}", ""),
     # result blocks whose LAST line consists of white space only (a blank value): when such a record ends
     # a file, the trailing-newline clean-up must not take that line for padding
     ("query T", "blankrow {n}", "----\nv\n \n"),
@@ -932,7 +954,7 @@ def gen_cli_tree(rnd, multi=0):
             body += rnd.choice(["control sortmode rowsort\n\n", "control sortmode valuesort\n\n", "hash-threshold 2\n\n",
                                 "control substitution on\n\n", "hash-threshold 3\n\n"])
         # ... directly followed by a record that is sensitive to such state
-        hdr, sql, block = rnd.choice(UPD_RECORDS[-6:-3] + SUBST_RECORDS + [("query T", "rows 4", "----\nr0\nr1\nr2\nr3\n")])
+        hdr, sql, block = rnd.choice(UPD_RECORDS[-10:-7] + SUBST_RECORDS + [("query T", "rows 4", "----\nr0\nr1\nr2\nr3\n")])
         ctr[0] += 1
         q = sql.format(n=ctr[0] * 10 + 1, m=ctr[0] * 10 + 2, c=4)
         sqls.append(q)
@@ -950,7 +972,7 @@ def upd_case(op, tree, sqls, k=None):
     for q in sqls:
         if q not in uniq:
             uniq.append(q)
-    s += f" db {hx('external')} 0 {len(uniq)}" + "".join(f" {hx(q)} 1 {engine_answer(q)}" for q in uniq)
+    s += f" db {hx('external')} 0 {len(uniq)}" + "".join(" " + enc_answers(q) for q in uniq)
     s += " rows x 0 0 exit 0 x K " + ("-" if k is None else str(k))
     return s
 
@@ -1090,11 +1112,11 @@ def multi_case(mode, tree, roots, sqls, labels=()):
                         cands.append(cand)
     errs = []
     for q in uniq:
-        a = engine_answer(q)
-        if a.startswith("error "):
-            e = unhx(a.split(" ")[1])
-            if e not in errs:
-                errs.append(e)
+        for a in engine_answers(q):
+            if a.startswith("error "):
+                e = unhx(a.split(" ")[1])
+                if e not in errs:
+                    errs.append(e)
     valid, matches = [], []
     for cand in cands:
         try:
@@ -1106,7 +1128,7 @@ def multi_case(mode, tree, roots, sqls, labels=()):
             valid.append((cand, 0))
     s += f" {len(valid)}" + "".join(f" {hx(c)} {v}" for c, v in valid)
     s += f" {len(matches)}" + "".join(f" {hx(c)} {hx(e)} {v}" for c, e, v in matches)
-    s += f" db {hx('external')} 0 {len(uniq)}" + "".join(f" {hx(q)} 1 {engine_answer(q)}" for q in uniq)
+    s += f" db {hx('external')} 0 {len(uniq)}" + "".join(" " + enc_answers(q) for q in uniq)
     s += " rows x 0 0 exit 0 x"
     return s
 
